@@ -38,6 +38,8 @@ var configs = []cfg{
 	{text: "SecDataset phrases `\nabc def\n`\nSecRule ARGS \"@pmFromDataset phrases\" \"id:1,phase:1,deny\""},
 	{text: `SecRule ARGS "@validateSchema schemas/item.json" "id:1,phase:1,deny"`, files: map[string]string{"schemas/item.json": `{"type":"object","required":["id"]}`}},
 	{text: `SecRule ARGS "@validateSchema schemas/item.json" "id:1,phase:1,deny"`, files: map[string]string{"schemas/item.json": `{"type":"object","required":["sn"]}`}},
+	{text: `SecRule ARGS_GET:/^Ab/ "@streq x" "id:1,phase:1,deny"`},
+	{text: `SecRule REQUEST_HEADERS:/^Ab/ "@streq x" "id:1,phase:1,deny"`},
 }
 
 var probes = []string{"abc.def", "abcxdef", "abc", "xyz", "names", "x", "ABC.DEF", "abc def", "def", `{"id":1}`, `{"sn":1}`, `{}`}
@@ -83,6 +85,8 @@ func probe(w coraza.WAF) map[string]string {
 			tx.ProcessURI("/"+p, "GET", "HTTP/1.1")
 			tx.AddGetRequestArgument("a", p)
 			tx.AddGetRequestArgument("b", p)
+			tx.AddGetRequestArgument("Abq", p)
+			tx.AddRequestHeader("Abh", p)
 			it := tx.ProcessRequestHeaders()
 			var ids []int
 			for _, mr := range tx.MatchedRules() {
